@@ -237,6 +237,7 @@ Record ilaws {C V : Type} (o : kops C V) (nonneg : C -> Prop) : Prop := mk_ilaws
   i_dot_sym : forall u v, o.(vdot) u v = o.(cconj) (o.(vdot) v u);
   i_nrm_sq : forall v, o.(cmul) (o.(vnrm) v) (o.(vnrm) v) = o.(vdot) v v;
   i_nrm_real : forall v, o.(cconj) (o.(vnrm) v) = o.(vnrm) v;
+  i_nrm_zero : forall v, o.(vnrm) v = o.(c0) -> forall u, o.(vdot) u v = o.(c0);     (* definiteness *)
   i_nrm_nonneg : forall v, nonneg (o.(vnrm) v) }.
 
 Section Alg.
@@ -334,7 +335,8 @@ Definition Good (k : nat) (s : @ast C V) : Prop :=
 Record AInv (m idx : nat) (s : @ast C V) : Prop := mk_AInv {
   AI_shape : Shape o m idx s;
   AI_good : forall k, (k <= idx)%nat -> alive k s -> Good k s;
-  AI_sub : forall j, (j < idx)%nat -> exists x, Hent o (aH s) (S j) j = nrm x }.
+  AI_sub : forall j, (j < idx)%nat -> exists x, Hent o (aH s) (S j) j = nrm x /\
+     forall u, dot u (A (col o (aQ s) j)) = csum o (S j) (fun i => Hent o (aH s) i j * dot u (col o (aQ s) i)) + dot u x }.
 
 Lemma init_ainv m v : nrm v <> 0 -> AInv m 0 (ainit o m v).
 Proof. intros Hv. constructor; [apply init_shape| |intros; lia].
@@ -347,12 +349,6 @@ Proof. intros Hv. constructor; [apply init_shape| |intros; lia].
 Lemma body_ainv m idx s : (idx < m)%nat -> AInv m idx s -> AInv m (S idx) (abody o A m tol idx s).
 Proof.
   intros Hi [Sh Gd Sb]. pose proof Sh as [lQ lH lc _ _ _].
-  constructor; [apply body_shape; auto| |].
-  2:{ intros j Hj. unfold abody; cbn [aH]. unfold Hent. destruct (Nat.eq_dec j idx) as [->|Hne].
-      - rewrite nth_upd_eq by lia. unfold ent. replace (S idx) with (idx + 1)%nat by lia. rewrite nth_upd_eq.
-        + eexists; reflexivity.
-        + rewrite mgs_len, repeat_length. lia.
-      - rewrite nth_upd_neq by lia. apply Sb. lia. }
   (* the step, named *)
   set (s' := abody o A m tol idx s).
   set (qs := firstn (idx + 1) (aQ s)).
@@ -371,6 +367,16 @@ Proof.
   assert (F3b : forall i, (i <= idx)%nat -> Hent o (aH s') i idx = ent o (snd r) i). { intros i Hi'. rewrite F3. unfold ent. apply nth_upd_neq. lia. }
   assert (F4 : col o (aQ s') (S idx) = o.(vdiv) (fst r) (clip_min o nr half)).
   { unfold s', abody, col; cbn [aQ]. replace (S idx) with (idx + 1)%nat by lia. apply nth_upd_eq. lia. }
+  constructor; [apply body_shape; auto| |].
+  2:{ intros j Hj. destruct (Nat.eq_dec j idx) as [->|Hne].
+      - exists (fst r). split; [exact F3a|]. intros u. rewrite F1 by lia. fold new0.
+        rewrite (mgs_rel qs 0 new0 (repeat o.(c0) (m + 1)) ltac:(rewrite lqs, repeat_length; lia) u). fold r.
+        rewrite lqs. replace (idx + 1)%nat with (S idx) by lia.
+        rewrite (csum_ext' (S idx) (fun i => Hent o (aH s') i idx * dot u (col o (aQ s') i)) (fun i => ent o (snd r) (0 + i) * dot u (nth i qs o.(vzero))))
+          by (intros i Hi'; rewrite F3b, F1, Eqs by lia; reflexivity).
+        ring.
+      - destruct (Sb j ltac:(lia)) as (x & Hx & Hrel). exists x. split; [rewrite F2 by lia; exact Hx|].
+        intros u. rewrite F1 by lia. rewrite (Hrel u). f_equal. apply csum_ext'. intros i Hi'. rewrite F2, F1 by lia. reflexivity. }
   intros k Hk Hal.
   assert (Hal_old : forall k', (k' <= idx)%nat -> alive k' s' -> alive k' s).
   { intros k' Hk' Ha j Hj. rewrite <- !F2 by lia. apply Ha. exact Hj. }
@@ -422,12 +428,14 @@ Proof. intros Hc. induction fuel as [|f IH]; intros idx ss HS; simpl; [exact HS|
 
 (* the whole run, any batch: for every element and every k up to the number of steps taken, if the first k steps were
    regular (non-zero remainder, clip inactive) then columns 0..k are orthonormal and the Arnoldi relation holds for
-   columns 0..k-1 with the recorded H (by construction); the sub-diagonal entries are norms *)
+   columns 0..k-1 with the recorded H (by construction); for EVERY step j taken, regular or not,
+   A q_j = sum_{i<=j} H[i,j] q_i + x_j  with the sub-diagonal entry H[j+1,j] = ||x_j|| (the remainder of the inner loop) *)
 Theorem arnoldi_run n vs max_iters : Forall (fun v => nrm v <> 0) vs ->
   forall s, In s (snd (arnoldi_batch o A n vs max_iters tol)) ->
   let steps := fst (arnoldi_batch o A n vs max_iters tol) in
   (forall k, (k <= steps)%nat -> alive k s -> Good k s) /\
-  (forall j, (j < steps)%nat -> exists x, Hent o (aH s) (S j) j = nrm x).
+  (forall j, (j < steps)%nat -> exists x, Hent o (aH s) (S j) j = nrm x /\
+     forall u, dot u (A (col o (aQ s) j)) = csum o (S j) (fun i => Hent o (aH s) i j * dot u (col o (aQ s) i)) + dot u x).
 Proof. intros Hv s Hs. unfold arnoldi_batch in *. set (cap := Nat.min max_iters n) in *.
   assert (H0 : Forall (AInv max_iters 0) (map (ainit o max_iters) vs)).
   { rewrite Forall_forall in *. intros x Hx. apply in_map_iff in Hx as (v & <- & Hvin). apply init_ainv. auto. }
@@ -440,4 +448,110 @@ Theorem arnoldi_subdiag_nonneg {C V} (o : kops C V) (A : V -> V) (nonneg : C -> 
   forall s, In s (snd (arnoldi_batch o A n vs max_iters tol)) ->
   forall j, j < fst (arnoldi_batch o A n vs max_iters tol) -> nonneg (Hent o (aH s) (S j) j).
 Proof. intros L tol n vs mi Hv s Hs j Hj.
-  destruct (proj2 (arnoldi_run o A nonneg L tol n vs mi Hv s Hs) j Hj) as (x & ->). exact (i_nrm_nonneg _ _ L x). Qed.
+  destruct (proj2 (arnoldi_run o A nonneg L tol n vs mi Hv s Hs) j Hj) as (x & -> & _). exact (i_nrm_nonneg _ _ L x). Qed.
+
+(* breakdown: if step j was taken and its remainder vanished (H[j+1,j] = 0) then A q_j lies in span(q_0..q_j); together with the
+   relation for the regular steps before it, span(q_0..q_j) is A-invariant *)
+Theorem arnoldi_breakdown_invariant {C V} (o : kops C V) (A : V -> V) (nonneg : C -> Prop) : ilaws o nonneg ->
+  forall (tol : C) (n : nat) (vs : list V) (max_iters : nat), Forall (fun v => o.(vnrm) v <> o.(c0)) vs ->
+  forall s, In s (snd (arnoldi_batch o A n vs max_iters tol)) ->
+  forall j, j < fst (arnoldi_batch o A n vs max_iters tol) -> Hent o (aH s) (S j) j = o.(c0) ->
+  forall u, o.(vdot) u (A (col o (aQ s) j)) = csum o (S j) (fun i => o.(cmul) (Hent o (aH s) i j) (o.(vdot) u (col o (aQ s) i))).
+Proof. intros L tol n vs mi Hv s Hs j Hj Hz u.
+  destruct (proj2 (arnoldi_run o A nonneg L tol n vs mi Hv s Hs) j Hj) as (x & Hx & Hrel).
+  rewrite (Hrel u). rewrite Hz in Hx. rewrite (i_nrm_zero _ _ L x (eq_sym Hx) u).
+  pose proof (i_field _ _ L) as F. destruct F as [R _ _ _]. destruct R as [R0 Rc Ra _ _ _ _ _ _].
+  rewrite Rc. apply R0. Qed.
+
+(* ---------- Ritz pairs (what arnoldi_eigs computes when max_iters = k regular steps were taken): if (theta, y) is an eigenpair
+   of the leading k x k block of H (the eig oracle) then  A (Q_k y) = theta (Q_k y) + y_{k-1} H[k,k-1] q_k ;
+   an exact eigenpair of A when the last remainder vanishes.  A is assumed linear (weakly). ---------- *)
+Section Ritz.
+Context {C V : Type} (o : kops C V) (A : V -> V) (nonneg : C -> Prop) (L : ilaws o nonneg).
+Declare Scope Z_scope'.
+Local Notation "0" := (o.(c0)) : Z_scope'. Local Notation "1" := (o.(c1)) : Z_scope'.
+Local Notation "x + y" := (o.(cadd) x y) : Z_scope'. Local Notation "x * y" := (o.(cmul) x y) : Z_scope'.
+Local Notation "x - y" := (o.(csub) x y) : Z_scope'. Local Notation "x / y" := (o.(cdiv) x y) : Z_scope'.
+Local Notation "- x" := (o.(copp) x) : Z_scope'.
+Local Open Scope Z_scope'.
+Local Notation dot := (o.(vdot)).
+Add Field RF : (i_field _ _ L).
+
+Lemma rs_ext n f g : (forall a, (a < n)%nat -> f a = g a) -> csum o n f = csum o n g.
+Proof. induction n; simpl; intros H; [reflexivity|]. rewrite IHn, H by (intros; try apply H; lia). reflexivity. Qed.
+Lemma rs_zero n : csum o n (fun _ => 0) = 0.
+Proof. induction n; simpl; [reflexivity|rewrite IHn; ring]. Qed.
+Lemma rs_add n f g : csum o n (fun a => f a + g a) = csum o n f + csum o n g.
+Proof. induction n; simpl; [ring|rewrite IHn; ring]. Qed.
+Lemma rs_mul_l n c f : csum o n (fun a => c * f a) = c * csum o n f.
+Proof. induction n; simpl; [ring|rewrite IHn; ring]. Qed.
+Lemma rs_swap m n (f : nat -> nat -> C) : csum o m (fun i => csum o n (fun j => f i j)) = csum o n (fun j => csum o m (fun i => f i j)).
+Proof. induction m; simpl; [rewrite rs_zero; reflexivity|]. rewrite IHm, <- rs_add. reflexivity. Qed.
+Lemma rs_trunc j j' f : (j <= j')%nat -> (forall t, (j <= t < j')%nat -> f t = 0) -> csum o j' f = csum o j f.
+Proof. induction j'; intros Hj Hz.
+  - assert (j = 0%nat) by lia. subst. reflexivity.
+  - destruct (Nat.eq_dec j (S j')) as [->|Hne]; [reflexivity|]. simpl. rewrite IHj'; [|lia|intros; apply Hz; lia].
+    rewrite (Hz j') by lia. ring. Qed.
+
+Hypothesis A_zero : forall u, dot u (A o.(vzero)) = 0.
+Hypothesis A_lin : forall u x a y, dot u (A (o.(vadd) x (o.(vscale) a y))) = dot u (A x) + a * dot u (A y).
+
+Lemma dot_A_vcomb k c q u : dot u (A (vcomb o k c q)) = csum o k (fun j => c j * dot u (A (q j))).
+Proof. induction k; simpl; [apply A_zero|]. rewrite A_lin, IHk. reflexivity. Qed.
+Lemma dot_vcomb' (dot_add_r : forall u v w, dot u (o.(vadd) v w) = dot u v + dot u w) (dot_zero_r : forall u, dot u o.(vzero) = 0)
+  k c q u : dot u (vcomb o k c q) = csum o k (fun j => c j * dot u (q j)).
+Proof. induction k; simpl; [apply dot_zero_r|]. rewrite dot_add_r, (i_dot_scale_r _ _ L), IHk. reflexivity. Qed.
+
+Theorem arnoldi_ritz (dot_add_r : forall u v w, dot u (o.(vadd) v w) = dot u v + dot u w) (dot_zero_r : forall u, dot u o.(vzero) = 0)
+  (s : @ast C V) (k : nat) (theta : C) (y : nat -> C) :
+  (1 <= k)%nat ->
+  (forall i j, (j + 1 < i)%nat -> Hent o (aH s) i j = 0) ->                                       (* H upper Hessenberg (C15_structure) *)
+  (forall j, (j < k)%nat -> forall u,                                                              (* Arnoldi relation (C15_whole_run) *)
+      dot u (A (col o (aQ s) j)) = csum o (S (S j)) (fun i => Hent o (aH s) i j * dot u (col o (aQ s) i))) ->
+  (forall a, (a < k)%nat -> csum o k (fun j => Hent o (aH s) a j * y j) = theta * y a) ->           (* eig oracle on H[:k, :k] *)
+  forall u, dot u (A (vcomb o k y (col o (aQ s)))) =
+            theta * dot u (vcomb o k y (col o (aQ s))) + y (k - 1)%nat * (Hent o (aH s) k (k - 1) * dot u (col o (aQ s) k)).
+Proof.
+  intros Hk Hess Rel Eig u. rewrite dot_A_vcomb, (dot_vcomb' dot_add_r dot_zero_r).
+  (* every column relation, summed up to k+1 rows (the extra entries are Hessenberg zeros) *)
+  rewrite (rs_ext k _ (fun j => csum o (S k) (fun i => y j * (Hent o (aH s) i j * dot u (col o (aQ s) i))))).
+  2:{ intros j Hj. rewrite (Rel j Hj u), <- rs_mul_l. symmetry.
+      rewrite (rs_trunc (S (S j)) (S k)); [reflexivity|lia|]. intros t Ht. rewrite Hess by lia. ring. }
+  rewrite rs_swap. cbn [csum].
+  rewrite (rs_ext k _ (fun i => theta * (y i * dot u (col o (aQ s) i)))).
+  2:{ intros i Hi. rewrite (rs_ext k _ (fun j => dot u (col o (aQ s) i) * (Hent o (aH s) i j * y j))) by (intros; ring).
+      rewrite rs_mul_l, Eig by exact Hi. ring. }
+  rewrite rs_mul_l. f_equal.
+  (* row k: only H[k, k-1] is non-zero *)
+  destruct k as [|k']; [lia|]. cbn [csum]. replace (S k' - 1)%nat with k' by lia.
+  rewrite (rs_ext k' _ (fun _ => 0)) by (intros j Hj; rewrite Hess by lia; ring).
+  rewrite rs_zero. ring.
+Qed.
+End Ritz.
+
+(* ---------- the full statement, and what is proved of it ----------
+   Proved (PropsC15.v): shapes / step bound / first column / Hessenberg form / zero padding and buffer-size independence for any
+   scalar type; in exact arithmetic, for any batch: orthonormality and the Arnoldi relation for the regular steps, non-negative
+   sub-diagonal, the remainder relation for every step, A-invariance at breakdown, Ritz pairs of the leading block.
+   NOT proved: the last clause below (arnoldi_eigs with at least n steps returns the spectrum of A: needs that n orthonormal
+   vectors span an n-dimensional space, which the abstract inner-product signature cannot express).
+   Refuted for the current code: [eigs_uses_leading_block] (flag arnoldi_padding, theorem arnoldi_eigs_zero_column) and, on binary64,
+   the zero column after breakdown (arnoldi_clip_garbage), the stop at a first-step breakdown (arnoldi_reltol_first_step) and
+   batches (arnoldi_batch_shared_stop). *)
+Definition is_eig_A {C V} (o : kops C V) (A : V -> V) (theta : C) : Prop :=
+  exists x, (exists u, o.(vdot) u x <> o.(c0)) /\ forall u, o.(vdot) u (A x) = o.(cmul) theta (o.(vdot) u x).
+Definition is_eig_block {C V} (o : kops C V) (s : @ast C V) (k : nat) (theta : C) : Prop :=
+  exists y, (exists a, a < k /\ y a <> o.(c0)) /\ forall a, a < k -> csum o k (fun j => o.(cmul) (Hent o (aH s) a j) (y j)) = o.(cmul) theta (y a).
+Definition C15_full : Prop :=
+  forall (C V : Type) (o : kops C V) (A : V -> V) (nonneg : C -> Prop), ilaws o nonneg ->
+  forall (tol : C) (n : nat) (vs : list V) (max_iters : nat), Forall (fun v => o.(vnrm) v <> o.(c0)) vs ->
+  forall s, In s (snd (arnoldi_batch o A n vs max_iters tol)) ->
+  let steps := fst (arnoldi_batch o A n vs max_iters tol) in
+  (* regular steps: orthonormal columns and the relation; sub-diagonal entries are norms *)
+  ((forall k, k <= steps -> alive o tol k s -> Good o A k s) /\
+   (forall j, j < steps -> nonneg (Hent o (aH s) (S j) j))) /\
+  (* after a breakdown at step j: zero column *)
+  (forall j, j < steps -> Hent o (aH s) (S j) j = o.(c0) -> forall u, o.(vdot) u (col o (aQ s) (S j)) = o.(c0)) /\
+  (* with at least n steps the eigenvalues handed back are exactly those of A: they are the eigenvalues of the leading
+     steps x steps block, not of the zero-padded max_iters x max_iters matrix *)
+  (n <= max_iters -> alive o tol (steps - 1) s -> forall theta, is_eig_block o s steps theta <-> is_eig_A o A theta).
